@@ -94,6 +94,12 @@ theorem mem_ruleGroup (d : Defn) (s : St) (e : Nat) (he : e < d.nEdges) (x : Nat
     · intro ⟨hx, hm⟩; exact ⟨hx, ((mem_group d s e x).1 hm).2⟩
     · intro ⟨hx, ha⟩; exact ⟨hx, (mem_group d s e x).2 ⟨hx, ha⟩⟩
 
+theorem hasDup_of_nodup : ∀ (l : List Nat), l.Nodup → hasDup l = false
+  | [], _ => rfl
+  | a :: as, h => by
+    have h' := List.nodup_cons.1 h
+    simp [hasDup, h'.1, hasDup_of_nodup as h'.2]
+
 theorem selected_nodup (d : Defn) (edges : Option (List Nat)) : (selected d edges).Nodup := by
   unfold selected
   cases edges with
@@ -150,12 +156,21 @@ theorem setRule_ruleOf (d : Defn) (s : St) (hwf : WFSt d s) (e : Nat) (he : e < 
     · cases hes
     · cases hes
       exact ((mem_group d s e x).1 hx).1
+  have hnodup : ∀ es, (ruleOf d s e).edges = some es → es.Nodup := by
+    intro es hes
+    unfold ruleOf at hes
+    simp only [] at hes
+    split at hes
+    · cases hes
+    · cases hes
+      exact List.nodup_range.filter _
   have hcheck : badEdges d (ruleOf d s e).edges = false := by
     unfold badEdges
     cases hed : (ruleOf d s e).edges with
     | none => rfl
     | some es =>
-      simp only [List.any_eq_false, decide_eq_true_eq]
+      simp only [Bool.or_eq_false_iff, List.any_eq_false, decide_eq_true_eq]
+      refine ⟨?_, hasDup_of_nodup es (hnodup es hed)⟩
       intro x hx
       have := hedges es hed x hx
       omega
